@@ -219,7 +219,7 @@ def stream_fn1(tier, rng, kinds):
                 arm(PV("m"), None, op("mul", var("m"), num(k, 2)))]
     lists = list(ordered_subsets(list(range(6)), 3)) + [list(p) for p in itertools.permutations([0, 1, 2, 3])]
     if tier == "quick":
-        lists = [l for l in lists if len(l) <= 2] + pick(rng, [l for l in lists if len(l) > 2], 70)
+        lists = [l for l in lists if len(l) <= 2] + pick(rng, [l for l in lists if len(l) > 2], 35)
     for l in lists:
         k = kinds.next()
         arms = [pool(k)[i] for i in l]
@@ -239,15 +239,18 @@ def stream_fn2(tier, rng, kinds):
                 arm(PT(PL(I(k, 1)), WILD), None, num(k, 70))]
     lists = list(ordered_subsets(list(range(7)), 3))
     if tier == "quick":
-        lists = [l for l in lists if len(l) <= 2] + pick(rng, [l for l in lists if len(l) > 2], 45)
+        lists = [l for l in lists if len(l) == 1] + pick(rng, [l for l in lists if len(l) == 2], 30) + \
+                pick(rng, [l for l in lists if len(l) > 2], 30)
     for l in lists:
         k = kinds.next()
         arms = [pool(k)[i] for i in l]
-        for a in range(3):
-            for b in range(3):
-                yield make_case(dict(stream="fn2", kind=k, narms=len(l)),
-                                [fn("g", [("a", kint(k)), ("b", kint(k))], kint(k), arms)],
-                                call("g", num(k, a), num(k, b)))
+        pairs = [(a, b) for a in range(3) for b in range(3)]
+        if tier == "quick" and len(l) > 2:
+            pairs = pick(rng, pairs, 4)
+        for (a, b) in pairs:
+            yield make_case(dict(stream="fn2", kind=k, narms=len(l)),
+                            [fn("g", [("a", kint(k)), ("b", kint(k))], kint(k), arms)],
+                            call("g", num(k, a), num(k, b)))
 
 VECS = [[1], [2], [1, 2], [2, 1], [1, 1], [1, 2, 3], [3, 1, 1], [1, 1, 2, 3], [2, 3, 1, 1]]
 
@@ -277,12 +280,12 @@ def stream_fnarr(tier, rng, kinds):
         n = len(poolf("u8"))
         lists = list(ordered_subsets(list(range(n)), 3))
         if tier == "quick":
-            lists = pick(rng, [l for l in lists if len(l) == 1], 20) + pick(rng, [l for l in lists if len(l) == 2], 40) + \
-                    pick(rng, [l for l in lists if len(l) == 3], 20)
+            lists = pick(rng, [l for l in lists if len(l) == 1], 11) + pick(rng, [l for l in lists if len(l) == 2], 25) + \
+                    pick(rng, [l for l in lists if len(l) == 3], 14)
         for l in lists:
             k = kinds.next()
             arms = [poolf(k)[i] for i in l]
-            vecs = VECS if tier != "quick" else pick(rng, VECS, 5)
+            vecs = VECS if tier != "quick" else pick(rng, VECS, 4)
             for zs in vecs:
                 yield make_case(dict(stream="fnarr-" + name, kind=k, narms=len(l)),
                                 [fn("f", [("xs", kvec(k))], out(k), arms)], call("f", val(Row(k, zs))))
@@ -303,8 +306,8 @@ def stream_fnenum(tier, rng, kinds):
                 arm(PV("w"), None, num(k, 8))]
     lists = list(ordered_subsets(list(range(6)), 4))
     if tier == "quick":
-        lists = [l for l in lists if len(l) <= 2] + pick(rng, [l for l in lists if len(l) == 3], 40) + \
-                pick(rng, [l for l in lists if len(l) == 4], 40)
+        lists = [l for l in lists if len(l) <= 2] + pick(rng, [l for l in lists if len(l) == 3], 25) + \
+                pick(rng, [l for l in lists if len(l) == 4], 25)
     for l in lists:
         k = kinds.next()
         arms = [pool(k)[i] for i in l]
@@ -335,8 +338,8 @@ def stream_match_int(tier, rng, kinds):
     n = 8
     base = list(ordered_subsets(list(range(n)), 3))
     if tier == "quick":
-        base = [l for l in base if len(l) == 1] + pick(rng, [l for l in base if len(l) == 2], 30) + \
-               pick(rng, [l for l in base if len(l) == 3], 25)
+        base = [l for l in base if len(l) == 1] + pick(rng, [l for l in base if len(l) == 2], 12) + \
+               pick(rng, [l for l in base if len(l) == 3], 8)
     for l in with_wild(base, -1, lambda l: len(l) == 1):
         k = kinds.next()
         p = pool(k)
@@ -358,8 +361,8 @@ def stream_match_tuple(tier, rng, kinds):
                 arm(ab, None, op("add", op("mul", var("a"), num(k, 3)), var("b")))]
     base = list(ordered_subsets(list(range(8)), 3))
     if tier == "quick":
-        base = [l for l in base if len(l) == 1] + pick(rng, [l for l in base if len(l) == 2], 25) + \
-               pick(rng, [l for l in base if len(l) == 3], 20)
+        base = [l for l in base if len(l) == 1] + pick(rng, [l for l in base if len(l) == 2], 10) + \
+               pick(rng, [l for l in base if len(l) == 3], 7)
     for l in with_wild(base, -1, lambda l: len(l) == 1 and l[0] in (0, 7)):
         k = kinds.next()
         p = pool(k)
@@ -394,8 +397,8 @@ def stream_match_arr(tier, rng, kinds):
                 arm(PA([PV("a"), PV("b")], NONE, []), op("ne", var("a"), var("b")), op("add", var("a"), var("b")))]
     base = list(ordered_subsets(list(range(8)), 3))
     if tier == "quick":
-        base = [l for l in base if len(l) == 1] + pick(rng, [l for l in base if len(l) == 2], 25) + \
-               pick(rng, [l for l in base if len(l) == 3], 15)
+        base = [l for l in base if len(l) == 1] + pick(rng, [l for l in base if len(l) == 2], 12) + \
+               pick(rng, [l for l in base if len(l) == 3], 8)
     for l in with_wild(base, -1, lambda l: False):
         k = kinds.next()
         p = pool(k)
@@ -412,7 +415,7 @@ def stream_match_arr(tier, rng, kinds):
                              (PA([], ANY, [PV("l")]), var("l")),
                              (PA([WILD], BIND(PV("m")), [PV("l")]), tup(var("m"), var("l"))),
                              (PA([PV("a"), PV("b")], BIND(PV("r")), []), tup(var("a"), var("b"), var("r")))):
-                if tier == "quick" and rng.random() < 0.6:
+                if tier == "quick" and rng.random() < 0.75:
                     continue
                 yield make_case(dict(stream="match-arr-parts", kind=k, narms=2), [],
                                 match(var("xs"), [arm(pt, None, body), arm(WILD, None, num(k, 7))]),
@@ -445,7 +448,7 @@ def stream_match_enum(tier, rng, kinds):
             yield l
     ls = list(gen())
     if tier == "quick":
-        ls = pick(rng, ls, 220)
+        ls = pick(rng, ls, 130)
     for l in ls:
         k = kinds.next()
         p = pool(k)
@@ -462,7 +465,10 @@ def stream_match_bool(tier, rng, kinds):
                 arm(PV("c"), var("c"), num(k, 3)),
                 arm(PV("c"), None, num(k, 4))]
     base = list(ordered_subsets(list(range(4)), 3))
-    for l in with_wild(base, -1, lambda l: False):
+    ls = list(with_wild(base, -1, lambda l: False))
+    if tier == "quick":
+        ls = pick(rng, ls, 80)
+    for l in ls:
         k = kinds.next()
         p = pool(k)
         arms = [arm(WILD, None, num(k, 7)) if i == -1 else p[i] for i in l]
@@ -543,7 +549,7 @@ def stream_recursion(tier, rng, kinds):
                 break
             n += 1
         # power
-        for x in (0, 1, 2, 3, 10):
+        for x in ((0, 1, 2, 3, 10) if tier != "quick" else (0, 1, 2, 3)):
             if x > hi:
                 continue
             es = {0, 1, 2, 5}
@@ -571,7 +577,7 @@ def stream_recursion(tier, rng, kinds):
         while a <= hi and n <= hi:
             ns.append(n)
             a, b, n = b, a + b, n + 1
-        sel = sorted(set(ns[:6] + ns[-4:] + [ns[-1] + 1] + ns[::7])) if tier == "quick" else ns + [ns[-1] + 1]
+        sel = sorted(set(ns[:6] + ns[-4:] + [ns[-1] + 1] + ns[::11])) if tier == "quick" else ns + [ns[-1] + 1]
         for n in sel:
             if n <= hi:
                 yield make_case(dict(stream="rec-fibacc", kind=k), d_fibacc(k), call("fibt", num(k, n)), fuel=n + 400)
@@ -583,7 +589,7 @@ def stream_recursion(tier, rng, kinds):
         while f2 <= top:
             f1, f2 = f2, f1 + f2
         pairs.append((f1, f2 - f1))
-        for _ in range(6 if tier == "quick" else 60):
+        for _ in range(2 if tier == "quick" else 60):
             pairs.append((rng.randint(0, top), rng.randint(0, top)))
             pairs.append((rng.randint(0, min(top, 200)), rng.randint(0, min(top, 200))))
         for (a, b) in pairs:
@@ -638,7 +644,7 @@ def stream_broadcast(tier, rng, kinds):
                     call("nt", val(M(1, 3, [B(True), B(False), B(True)]))))
 
 def stream_arity(tier, rng, kinds):
-    for k in INT_KINDS:
+    for k in (INT_KINDS if tier != "quick" else INT_KINDS[::2]):
         for np_ in (1, 2, 3):
             names = ["a", "b", "c"][:np_]
             pat = PV("a") if np_ == 1 else PT(*[PV(n) for n in names])
